@@ -12,6 +12,7 @@
 //     exec   args(#[serde(default)] d, #[serde(rename = "k")] r, p)
 //                                                               -> d optional, r keyed `k`
 //     exec   cfa(#[cfg_attr(not(wasm32), serde(default))] c, p)   -> c optional (attribute wrapped in cfg_attr)
+//     exec   dbl(#[serde(default)] #[serde(rename = "w")] t, p)   -> t optional AND keyed `w` (two same-path attributes)
 //     query  qa(n)     sudo  sa(n)     instantiate(n)     migrate(n)        (no forwarded attribute)
 //   interface ifat
 //     #[sv::msg_attr(query, serde(deny_unknown_fields))]       -> only the interface's QueryMsg
@@ -124,6 +125,20 @@ pub mod at {
             p: u64,
         ) -> StdResult<Response> {
             let _ = (c, p);
+            Ok(Response::new())
+        }
+
+        // two separate attributes with the SAME path on one argument: both must arrive
+        #[sv::msg(exec)]
+        pub fn dbl(
+            &self,
+            _ctx: ExecCtx,
+            #[serde(default)]
+            #[serde(rename = "w")]
+            t: u64,
+            p: u64,
+        ) -> StdResult<Response> {
+            let _ = (t, p);
             Ok(Response::new())
         }
 
